@@ -88,6 +88,8 @@ struct Worker {
     errs: SharedErrs,
     fail_start: bool,
     fail_pre_stop: bool,
+    /// post_start: 0 plain, 1 fails, 2 takes a few turns of the loop
+    post_start: u8,
 }
 
 #[derive(Debug)]
@@ -128,7 +130,16 @@ impl Actor for Worker {
 
     async fn post_start(&self, _myself: &Mailbox<Self>, _state: &mut ()) -> Result<(), String> {
         self.rec.events.lock().unwrap().push(Ev::PostStart);
-        Ok(())
+        match self.post_start {
+            1 => Err("post-start failed".to_string()),
+            2 => {
+                for _ in 0..3 {
+                    YieldNow(false).await;
+                }
+                Ok(())
+            }
+            _ => Ok(()),
+        }
     }
 
     async fn pre_stop(&self, _myself: &Mailbox<Self>, _state: &mut ()) -> Result<(), String> {
@@ -307,7 +318,7 @@ fn actors() -> RunResult {
                     let (rec, errs, plan) = (if second { Arc::new(Rec::default()) } else { recs[a].clone() }, errs.clone(), plans[a].clone());
                     let fail_start = plan.fail_start && !second;
                     let fail_pre_stop = plan.fail_pre_stop && !second;
-                    let mut s = cluster.spawn(move || Worker { slot: a, rec, errs, fail_start, fail_pre_stop }, ());
+                    let mut s = cluster.spawn(move || Worker { slot: a, rec, errs, fail_start, fail_pre_stop, post_start: 0 }, ());
                     if let Some(n) = &plan.name {
                         s = s.with_name(n.clone());
                     }
@@ -630,6 +641,8 @@ enum GOp {
     SendFailing,
     StopMember(usize),
     Leave(usize),
+    /// the member joins the group once more (after it has left, or a second time)
+    Rejoin(usize),
 }
 
 #[derive(Clone, Debug)]
@@ -653,30 +666,35 @@ fn groups() -> RunResult {
     let members = 2 + sim::choose("members", 2);
     let caps: Vec<Option<usize>> = (0..members).map(|_| [None, Some(1), Some(2)][sim::choose("member.capacity", 3)]).collect();
     let supervised = sim::flip("supervised", 2, 3);
+    // a member's post_start may fail (the supervisor then hears of a failure only) or take a few turns of the
+    // loop, during which the spawner may already ask it to stop (the supervisor still hears of its start)
+    let post_starts: Vec<u8> = (0..members).map(|_| sim::weighted("member.post_start", &[4, 1, 2]) as u8).collect();
+    let stop_early: Vec<bool> = (0..members).map(|k| post_starts[k] == 2 && sim::flip("member.stopped.early", 1, 2)).collect();
     let clients = sim::choose("client.threads", 3);
     let calm = sim::flip("no.member.ends", 1, 3);
     let steps: Vec<GStep> = (0..sim::range("steps", 0, 14) as u32)
         .map(|id| {
             let client = sim::choose("step.client", clients + 1);
-            let op = match sim::weighted("gstep.op", &[10, 1, 1, 1]) {
+            let op = match sim::weighted("gstep.op", &[10, 1, 1, 2, 2]) {
                 0 => GOp::Send([Work::None, Work::Yield, Work::Sleep(30)][sim::choose("step.work", 3)]),
                 1 if !calm => GOp::SendFailing,
                 2 if !calm => GOp::StopMember(sim::choose("step.member", members)),
                 3 if !calm => GOp::Leave(sim::choose("step.member", members)),
+                4 if !calm => GOp::Rejoin(sim::choose("step.member", members)),
                 _ => GOp::Send(Work::None),
             };
             GStep { id, client, op }
         })
         .collect();
     let capacity = 1u32 << sim::range("ring.capacity.log2", 1, 5);
-    sim::log(|| format!("{workers} workers, {clients} client threads, {members} members with capacities {caps:?}, supervised: {supervised}; ring capacity {capacity}; {cfg:?}"));
+    sim::log(|| format!("{workers} workers, {clients} client threads, {members} members with capacities {caps:?}, post_start kinds {post_starts:?}, stopped early {stop_early:?}, supervised: {supervised}; ring capacity {capacity}; {cfg:?}"));
     sim::log(|| format!("steps {steps:?}"));
     let errs = SharedErrs::default();
     let recs: Vec<Arc<Rec>> = (0..members).map(|_| Arc::new(Rec::default())).collect();
     let sup_log: Arc<Mutex<Vec<(String, &'static str)>>> = Arc::default();
 
     let (end, multi) = run_on_kernel_multi(cfg, {
-        let (errs, recs, steps, sup_log, caps) = (errs.clone(), recs.clone(), steps.clone(), sup_log.clone(), caps.clone());
+        let (errs, recs, steps, sup_log, caps, post_starts, stop_early) = (errs.clone(), recs.clone(), steps.clone(), sup_log.clone(), caps.clone(), post_starts.clone(), stop_early.clone());
         move || {
             let mut pb = ProactorBuilder::new();
             pb.capacity(capacity);
@@ -700,8 +718,8 @@ fn groups() -> RunResult {
                 let mut mailboxes = Vec::new();
                 let mut handles = Vec::new();
                 for k in 0..members {
-                    let (rec, errs2) = (recs[k].clone(), errs.clone());
-                    let mut s = cluster.spawn(move || Worker { slot: k, rec, errs: errs2, fail_start: false, fail_pre_stop: false }, ()).with_name(format!("member-{k}"));
+                    let (rec, errs2, post_start) = (recs[k].clone(), errs.clone(), post_starts[k]);
+                    let mut s = cluster.spawn(move || Worker { slot: k, rec, errs: errs2, fail_start: false, fail_pre_stop: false, post_start }, ()).with_name(format!("member-{k}"));
                     if let Some(c) = caps[k] {
                         s = s.with_capacity(NonZeroUsize::new(c).unwrap());
                     }
@@ -710,6 +728,10 @@ fn groups() -> RunResult {
                     }
                     match compio_runtime::time::timeout(CALL_BOUND, s.into_future()).await {
                         Ok(Ok((m, h))) => {
+                            if stop_early[k] {
+                                // (spawn returns after pre_start: post_start is still under way)
+                                m.stop();
+                            }
                             mailboxes.push(m);
                             handles.push(h);
                         }
@@ -721,8 +743,8 @@ fn groups() -> RunResult {
                 }
                 let group = ProcessGroup::<Msg>::new();
                 let fail_group = ProcessGroup::<Fail>::new();
-                let memberships: Arc<Mutex<Vec<Option<(Membership<Msg>, Membership<Fail>)>>>> =
-                    Arc::new(Mutex::new(mailboxes.iter().map(|m| Some((group.join(m.broker()), fail_group.join(m.broker())))).collect()));
+                let memberships: Arc<Mutex<Vec<Vec<(Membership<Msg>, Membership<Fail>)>>>> =
+                    Arc::new(Mutex::new(mailboxes.iter().map(|m| vec![(group.join(m.broker()), fail_group.join(m.broker()))]).collect()));
                 if group.len() != members {
                     errs.push("group", format!("{members} members joined, the group counts {}", group.len()));
                 }
@@ -735,8 +757,14 @@ fn groups() -> RunResult {
                             GOp::SendFailing => deliver(fail_group.send(Fail(s.id))),
                             GOp::StopMember(k) => Outcome::Stopped(mailboxes[k].stop()),
                             GOp::Leave(k) => {
-                                let m = memberships.lock().unwrap()[k].take();
-                                Outcome::Found(m.is_some())
+                                // (all of its memberships: from here on it is no member any more)
+                                let m: Vec<_> = std::mem::take(&mut memberships.lock().unwrap()[k]);
+                                Outcome::Found(!m.is_empty())
+                            }
+                            GOp::Rejoin(k) => {
+                                let m = (group.join(mailboxes[k].broker()), fail_group.join(mailboxes[k].broker()));
+                                memberships.lock().unwrap()[k].push(m);
+                                Outcome::Found(true)
                             }
                         }
                     }
@@ -761,7 +789,7 @@ fn groups() -> RunResult {
                 }
                 sim::log(|| format!("outcomes {outcomes:?}"));
                 let outcome = |id: u32| outcomes.iter().find(|(i, _)| *i == id).map(|(_, o)| *o);
-                let disturbed = steps.iter().any(|s| !matches!(s.op, GOp::Send(_)));
+                let disturbed = steps.iter().any(|s| !matches!(s.op, GOp::Send(_))) || post_starts.iter().any(|p| *p == 1) || stop_early.iter().any(|b| *b);
                 // ---- wind down: live members handle what they accepted, then everything is stopped
                 let mut all_answered = true;
                 for (k, m) in mailboxes.iter().enumerate() {
@@ -826,6 +854,27 @@ fn groups() -> RunResult {
                         _ => {}
                     }
                 }
+                // ---- a member that has left gets no more of the group's messages: what a client sends through the
+                // group after its own Leave of member k has returned is not handled by k (unless k joined again)
+                for c in 0..=clients {
+                    let mut gone: Vec<bool> = vec![false; members];
+                    for s in steps.iter().filter(|s| s.client == c) {
+                        match s.op {
+                            GOp::Leave(k) => gone[k] = true,
+                            GOp::Rejoin(k) => gone[k] = false,
+                            GOp::Send(_) | GOp::SendFailing => {
+                                for k in (0..members).filter(|k| gone[*k]) {
+                                    // (another client may have let it join again meanwhile)
+                                    let rejoined_elsewhere = steps.iter().any(|o| o.client != c && matches!(o.op, GOp::Rejoin(j) if j == k));
+                                    if handled_by[k].contains(&s.id) && !rejoined_elsewhere {
+                                        errs.push("group-delivered-to-departed", format!("member {k} had left the group (client {c}'s Leave had returned) when client {c} sent message {} through the group; member {k} handled it", s.id));
+                                    }
+                                }
+                            }
+                            GOp::StopMember(_) => {}
+                        }
+                    }
+                }
                 // ---- supervision
                 if let Some((sup, sup_handle)) = supervisor {
                     // the notices are in the supervisor's mailbox by now (the members have exited): let it handle them
@@ -847,8 +896,10 @@ fn groups() -> RunResult {
                             Some(ActorExit::Failed(_)) => "failed",
                             None => continue,
                         };
-                        if mine != ["started", want_end] {
-                            errs.push("supervision", format!("member {k} started and exited with {:?}; its supervisor was told {mine:?} (expected [\"started\", {want_end:?}])", exits[k]));
+                        // "started" means post_start has succeeded: a member that fails there was never started
+                        let want: Vec<&str> = if post_starts[k] == 1 { vec![want_end] } else { vec!["started", want_end] };
+                        if mine != want {
+                            errs.push("supervision", format!("member {k} (post_start {}) exited with {:?}; its supervisor was told {mine:?}, expected {want:?}", ["succeeds", "fails", "succeeds after a few turns, a stop may have been requested meanwhile"][post_starts[k] as usize], exits[k]));
                         }
                     }
                 }
